@@ -205,6 +205,21 @@ func RunC16(r *sim.Run) {
 		}
 		o := template(name)
 		var descs []string
+		if !update && t.Draw(4) == 0 {
+			// the same cluster reached over TLS: endpoints https, a CA and a client certificate
+			// (the stubs speak plain HTTP, so its probes fail; creating it must still work)
+			for k := range o.Spec.Servers {
+				o.Spec.Servers[k].Endpoint = strings.Replace(o.Spec.Servers[k].Endpoint, "http://", "https://", 1)
+			}
+			for k := range o.Spec.DispatchPolicies {
+				for j, e := range o.Spec.DispatchPolicies[k].UpstreamSubset {
+					o.Spec.DispatchPolicies[k].UpstreamSubset[j] = strings.Replace(e, "http://", "https://", 1)
+				}
+			}
+			o.Spec.ClientConfig.CAData = certs[0].ca
+			o.Spec.ClientConfig.CertData, o.Spec.ClientConfig.KeyData = certs[0].cert, certs[0].key
+			descs = append(descs, "https endpoints")
+		}
 		for k := 1 + t.Pick([]int{6, 3, 1}); k > 0; k-- {
 			descs = append(descs, c16Mutate(o, t.Draw, certs))
 		}
@@ -235,6 +250,26 @@ func RunC16(r *sim.Run) {
 		admitted++
 		if len(sample) < 4 {
 			sample = append(sample, desc)
+		}
+		// soundness of the rejection: what the statement lists as breaking the data plane
+		// must not get in: negative or zero rates, negative bursts, negative concurrency
+		r.Checked("out_of_range_flow_control_rejected")
+		for _, s := range o.Spec.FlowControl.Schemas {
+			bad := ""
+			for _, tb := range []*proxyv1alpha1.TokenBucketFlowControlSchema{s.TokenBucket, s.GlobalTokenBucket} {
+				if tb != nil && (tb.QPS <= 0 || tb.Burst <= 0) {
+					bad = fmt.Sprintf("token bucket qps=%d burst=%d", tb.QPS, tb.Burst)
+				}
+			}
+			for _, m := range []*proxyv1alpha1.MaxRequestsInflightFlowControlSchema{s.MaxRequestsInflight, s.GlobalMaxRequestsInflight} {
+				if m != nil && m.Max < 0 {
+					bad = fmt.Sprintf("max requests in flight %d", m.Max)
+				}
+			}
+			if bad != "" {
+				r.Violate("out_of_range_flow_control_admitted", strings.Fields(bad)[0], "object admitted (%s) although schema %q has an out-of-range configuration: %s", desc, s.Name, bad)
+				return
+			}
 		}
 		// let the controller apply it (first sync, requeue, probes)
 		w.Advance(6 * time.Second)
